@@ -1,6 +1,12 @@
 use super::{
     Namespace,
-    structures::{RustType, complex::ComplexProps, element::ElementProps, simple::SimpleProps},
+    field::RustFieldType,
+    structures::{
+        RustType, complex::ComplexProps,
+        element::{ElementProps, ElementType},
+        simple::SimpleProps,
+        xml_name_to_rust_name,
+    },
 };
 use crate::{
     error::{WriterError, WriterResult},
@@ -78,6 +84,19 @@ where
     fn write_xml(&self, writer: &mut W) -> WriterResult<()> {
         if self.rust_type == RustType::Ignore {
             return Ok(());
+        }
+
+        // an element typed by a type of its own name is normally not emitted (the type's struct is
+        // used for it); when that type lives in another namespace's module the alias is needed
+        if let RustType::Element(props) = &self.rust_type {
+            if let ElementType::RustType(rust_type @ RustFieldType::Other(other)) = &props.element_type {
+                let own_module = self.in_namespace.as_ref().map(|ns| ns.rust_mod_name.as_str());
+                let rust_name = xml_name_to_rust_name(&props.xml_name);
+                if other.name == rust_name && other.module.is_some() && other.module.as_deref() != own_module {
+                    writeln!(writer, "pub type {rust_name} = {rust_type};")?;
+                    return Ok(());
+                }
+            }
         }
 
         self.rust_type.write_xml(writer)
